@@ -11,17 +11,31 @@ open PoolWrite (Entry)
 open FramePool (Good Le)
 open ClassRead ClassRead.Spec
 
-/-- the single-instance attribute fields the blocks of `write` set are still unset -/
-def FreshC (c : ClassFacts) : Prop :=
-  True ∧ True ∧ c.innerClasses = none ∧ c.enclosingMethod = none ∧ c.signature = none ∧ c.sourceFile = none ∧
-    c.sourceDebugExtension = none ∧ c.modulePackages = none ∧ c.moduleMainClass = none ∧ c.nestHost = none ∧
-    c.nestMembers = none ∧ c.permittedSubclasses = none ∧ True
+/-! preconditions of the blocks of `write`, from the last block backwards: the single-instance attribute fields the
+remaining blocks set are still unset -/
+
+abbrev PreRecord (st : ClassAcc) : Prop := st.2.2 = false
+abbrev PrePermitted (st : ClassAcc) : Prop := st.1.permittedSubclasses = none ∧ PreRecord st
+abbrev PreNestMembers (st : ClassAcc) : Prop := st.1.nestMembers = none ∧ PrePermitted st
+abbrev PreNestHost (st : ClassAcc) : Prop := st.1.nestHost = none ∧ PreNestMembers st
+abbrev PreMainClass (st : ClassAcc) : Prop := st.1.moduleMainClass = none ∧ PreNestHost st
+abbrev PrePackages (st : ClassAcc) : Prop := st.1.modulePackages = none ∧ PreMainClass st
+abbrev PreModule (st : ClassAcc) : Prop := st.1.module = none ∧ PrePackages st
+abbrev PreSde (st : ClassAcc) : Prop := st.1.sourceDebugExtension = none ∧ PreModule st
+abbrev PreSourceFile (st : ClassAcc) : Prop := st.1.sourceFile = none ∧ PreSde st
+abbrev PreSignature (st : ClassAcc) : Prop := st.1.signature = none ∧ PreSourceFile st
+abbrev PreEnclosing (st : ClassAcc) : Prop := st.1.enclosingMethod = none ∧ PreSignature st
+abbrev PreInner (st : ClassAcc) : Prop := st.1.innerClasses = none ∧ PreEnclosing st
+
+/-- the single-instance attribute fields the blocks of `write` set are still unset, no `Record` attribute was seen -/
+abbrev FreshC (st : ClassAcc) : Prop := PreInner st
 
 theorem classAttrs_spec {t : ClassFacts} {p p' : Pool} {bs : List Bytes} (hg : Good p) (hok : ClassOk t)
     (h : runAttrs (classAttrs t []) p = .ok (bs, p')) :
-    Step p p' ∧ Blocks bs p' FreshC (fun c => withAttrsOf c t) := by
+    Step p p' ∧ ∃ as : List SClassAttr, bs = as.map SClassAttr.frame ∧ (∀ a ∈ as, Sound p' (fun rp => a.Legal rp)) ∧
+      ∀ st : ClassAcc, FreshC st → applyAll SClassAttr.apply st as =
+        some (withAttrsOf st.1 t, st.2.1, st.2.2 || !t.recordComponents.isEmpty) := by
   unfold classAttrs at h
-  rw [hok.module, hok.record] at h
   simp only [List.cons_append, List.nil_append, List.append_assoc] at h
   obtain ⟨o1, q1, r1, e1, k1, rfl⟩ := runAttrs_cons_inv h
   obtain ⟨o2, q2, r2, e2, k2, rfl⟩ := runAttrs_cons_inv k1
@@ -33,8 +47,6 @@ theorem classAttrs_spec {t : ClassFacts} {p p' : Pool} {bs : List Bytes} (hg : G
   obtain ⟨r8, q8, r9, e8, k8, rfl⟩ := runAttrs_append_inv k7
   obtain ⟨oa1, qa1, oa2, qa2, oa3, qa3, oa4, ea1, ea2, ea3, ea4, rfl⟩ := annoBlocks_inv e8
   obtain ⟨o9, q9, r10, e9, k9, rfl⟩ := runAttrs_cons_inv k8
-  have := ok_inj.mp (show (Except.ok (none, q8) : Except Fail (Option Bytes × Pool)) = .ok (o9, q9) from e9)
-  cases this
   obtain ⟨o10, q10, r11, e10, k10, rfl⟩ := runAttrs_cons_inv k9
   obtain ⟨o11, q11, r12, e11, k11, rfl⟩ := runAttrs_cons_inv k10
   obtain ⟨o12, q12, r13, e12, k12, rfl⟩ := runAttrs_cons_inv k11
@@ -42,11 +54,6 @@ theorem classAttrs_spec {t : ClassFacts} {p p' : Pool} {bs : List Bytes} (hg : G
   obtain ⟨o14, q14, r15, e14, k14, rfl⟩ := runAttrs_cons_inv k13
   obtain ⟨o15, q15, r16, e15, k15, rfl⟩ := runAttrs_cons_inv k14
   obtain ⟨o16, q16, r17, e16, k16, rfl⟩ := runAttrs_cons_inv k15
-  have h15 : o15 = none ∧ q15 = q14 := by
-    rcases onlyIf_inv e15 with ⟨hc, _⟩ | ⟨_, h1, h2⟩
-    · simp at hc
-    · exact ⟨h1, h2⟩
-  obtain ⟨rfl, rfl⟩ := h15
   have h16 : o16 = none ∧ q16 = q15 := by
     rcases onlyIf_inv e16 with ⟨hc, _⟩ | ⟨_, h1, h2⟩
     · simp at hc
@@ -63,18 +70,22 @@ theorem classAttrs_spec {t : ClassFacts} {p p' : Pool} {bs : List Bytes} (hg : G
   obtain ⟨ta2, ca2⟩ := annosAttr_spec ta1.good hok.ria ea2
   obtain ⟨ta3, ca3⟩ := typeAnnosAttr_spec writeTargetClass_eq ta2.good hok.rvta ea3
   obtain ⟨ta4, ca4⟩ := typeAnnosAttr_spec writeTargetClass_eq ta3.good hok.rita ea4
-  obtain ⟨t10, c10⟩ := packagesAttr_spec ta4.good e10
+  obtain ⟨t9, c9⟩ := moduleAttr_spec ta4.good e9
+  obtain ⟨t10, c10⟩ := packagesAttr_spec t9.good e10
   obtain ⟨t11, c11⟩ := classAttr_spec t10.good e11
   obtain ⟨t12, c12⟩ := classAttr_spec t11.good e12
   obtain ⟨t13, c13⟩ := classListAttr_spec t12.good e13
   obtain ⟨t14, c14⟩ := classListAttr_spec t13.good e14
-  obtain ⟨t17, ncs, hlen, rfl, hunk⟩ := unknownAttrs_spec t.attrs t14.good k16
-  have s14 := t17
+  obtain ⟨t15, c15⟩ := recordAttr_spec t14.good hok.record e15
+  obtain ⟨t17, ncs, hlen, rfl, hunk⟩ := unknownAttrs_spec t.attrs t15.good k16
+  have s15 := t17
+  have s14 := t15.trans s15
   have s13 := t14.trans s14
   have s12 := t13.trans s13
   have s11 := t12.trans s12
   have s10 := t11.trans s11
-  have sa4 := t10.trans s10
+  have s9 := t10.trans s10
+  have sa4 := t9.trans s9
   have sa3 := ta4.trans sa4
   have sa2 := ta3.trans sa3
   have sa1 := ta2.trans sa2
@@ -97,45 +108,38 @@ theorem classAttrs_spec {t : ClassFacts} {p p' : Pool} {bs : List Bytes} (hg : G
     (Blocks.cons (block_annos false ca2) sa2.le
     (Blocks.cons (block_typeAnnos true ca3) sa3.le
     (Blocks.cons (block_typeAnnos false ca4) sa4.le
+    (Blocks.cons (block_module hok.module c9) s9.le
     (Blocks.cons (block_packages c10) s10.le
     (Blocks.cons (block_mainClass hok.mainClass c11) s11.le
     (Blocks.cons (block_nestHost hok.nestHost c12) s12.le
     (Blocks.cons (block_nestMembers hok.nestMembers c13) s13.le
     (Blocks.cons (block_permitted hok.permitted c14) s14.le
+    (Blocks.consA (ablock_record c15) s15.le
       (blocks_unknown hok.unknown hlen hunk)
-      (pre := fun c => c.permittedSubclasses = none ∧ True) (fun c h => ⟨h.1, trivial⟩))
-      (pre := fun c => c.nestMembers = none ∧ c.permittedSubclasses = none ∧ True) (fun c h => ⟨h.1, h.2⟩))
-      (pre := fun c => c.nestHost = none ∧ c.nestMembers = none ∧ c.permittedSubclasses = none ∧ True) (fun c h => ⟨h.1, h.2⟩))
-      (pre := fun c => c.moduleMainClass = none ∧ c.nestHost = none ∧ c.nestMembers = none ∧ c.permittedSubclasses = none ∧ True)
-      (fun c h => ⟨h.1, h.2⟩))
-      (pre := fun c => c.modulePackages = none ∧ c.moduleMainClass = none ∧ c.nestHost = none ∧ c.nestMembers = none ∧
-        c.permittedSubclasses = none ∧ True) (fun c h => ⟨h.1, h.2⟩))
-      (pre := fun c => c.modulePackages = none ∧ c.moduleMainClass = none ∧ c.nestHost = none ∧ c.nestMembers = none ∧
-        c.permittedSubclasses = none ∧ True) (fun c h => ⟨trivial, by cases hv : c <;> simp_all⟩))
-      (pre := fun c => c.modulePackages = none ∧ c.moduleMainClass = none ∧ c.nestHost = none ∧ c.nestMembers = none ∧
-        c.permittedSubclasses = none ∧ True) (fun c h => ⟨trivial, by cases hv : c <;> simp_all⟩))
-      (pre := fun c => c.modulePackages = none ∧ c.moduleMainClass = none ∧ c.nestHost = none ∧ c.nestMembers = none ∧
-        c.permittedSubclasses = none ∧ True) (fun c h => ⟨trivial, by cases hv : c <;> simp_all⟩))
-      (pre := fun c => c.modulePackages = none ∧ c.moduleMainClass = none ∧ c.nestHost = none ∧ c.nestMembers = none ∧
-        c.permittedSubclasses = none ∧ True) (fun c h => ⟨trivial, by cases hv : c <;> simp_all⟩))
-      (pre := fun c => c.sourceDebugExtension = none ∧ c.modulePackages = none ∧ c.moduleMainClass = none ∧ c.nestHost = none ∧
-        c.nestMembers = none ∧ c.permittedSubclasses = none ∧ True) (fun c h => ⟨h.1, h.2⟩))
-      (pre := fun c => c.sourceFile = none ∧ c.sourceDebugExtension = none ∧ c.modulePackages = none ∧ c.moduleMainClass = none ∧
-        c.nestHost = none ∧ c.nestMembers = none ∧ c.permittedSubclasses = none ∧ True) (fun c h => ⟨h.1, h.2⟩))
-      (pre := fun c => c.signature = none ∧ c.sourceFile = none ∧ c.sourceDebugExtension = none ∧ c.modulePackages = none ∧
-        c.moduleMainClass = none ∧ c.nestHost = none ∧ c.nestMembers = none ∧ c.permittedSubclasses = none ∧ True)
-      (fun c h => ⟨h.1, h.2⟩))
-      (pre := fun c => c.enclosingMethod = none ∧ c.signature = none ∧ c.sourceFile = none ∧ c.sourceDebugExtension = none ∧
-        c.modulePackages = none ∧ c.moduleMainClass = none ∧ c.nestHost = none ∧ c.nestMembers = none ∧
-        c.permittedSubclasses = none ∧ True) (fun c h => ⟨h.1, h.2⟩))
-      (pre := fun c => c.innerClasses = none ∧ c.enclosingMethod = none ∧ c.signature = none ∧ c.sourceFile = none ∧
-        c.sourceDebugExtension = none ∧ c.modulePackages = none ∧ c.moduleMainClass = none ∧ c.nestHost = none ∧
-        c.nestMembers = none ∧ c.permittedSubclasses = none ∧ True) (fun c h => ⟨h.1, h.2⟩))
-      (pre := fun c => True ∧ c.innerClasses = none ∧ c.enclosingMethod = none ∧ c.signature = none ∧ c.sourceFile = none ∧
-        c.sourceDebugExtension = none ∧ c.modulePackages = none ∧ c.moduleMainClass = none ∧ c.nestHost = none ∧
-        c.nestMembers = none ∧ c.permittedSubclasses = none ∧ True) (fun c h => ⟨h.1, h.2⟩))
-      (pre := FreshC) (fun c h => ⟨h.1, h.2⟩)
-  simpa [withAttrsOf] using B
+      (pre := PreRecord) (fun c h => ⟨h, trivial⟩))
+      (pre := PrePermitted) (fun c h => ⟨h.1, h.2⟩))
+      (pre := PreNestMembers) (fun c h => ⟨h.1, h.2⟩))
+      (pre := PreNestHost) (fun c h => ⟨h.1, h.2⟩))
+      (pre := PreMainClass) (fun c h => ⟨h.1, h.2⟩))
+      (pre := PrePackages) (fun c h => ⟨h.1, h.2⟩))
+      (pre := PreModule) (fun c h => ⟨h.1, h.2⟩))
+      (pre := PreModule) (fun c h => ⟨trivial, h⟩))
+      (pre := PreModule) (fun c h => ⟨trivial, h⟩))
+      (pre := PreModule) (fun c h => ⟨trivial, h⟩))
+      (pre := PreModule) (fun c h => ⟨trivial, h⟩))
+      (pre := PreSde) (fun c h => ⟨h.1, h.2⟩))
+      (pre := PreSourceFile) (fun c h => ⟨h.1, h.2⟩))
+      (pre := PreSignature) (fun c h => ⟨h.1, h.2⟩))
+      (pre := PreEnclosing) (fun c h => ⟨h.1, h.2⟩))
+      (pre := PreInner) (fun c h => ⟨h.1, h.2⟩))
+      (pre := PreInner) (fun c h => ⟨trivial, h⟩))
+      (pre := FreshC) (fun c h => ⟨trivial, h⟩)
+  obtain ⟨as, hb, hs, hf⟩ := B
+  refine ⟨as, by rw [show as.map SClassAttr.frame = as.map ownClass.frame from rfl, ← hb]; simp [List.append_assoc], hs,
+    fun st hst => ?_⟩
+  show applyAll ownClass.apply st as = _
+  rw [hf st hst]
+  simp [withAttrsOf]
 
 /-! ## the pool image -/
 
@@ -181,7 +185,7 @@ def InWriterFragment (t : ClassFacts) : Prop := ClassOk t ∧ PoolOkOf t
 
 /-- `write` emits the JVMS encoding of a legal layout that denotes exactly `t` -/
 theorem writeClass_layout (t : ClassFacts) (hfrag : InWriterFragment t) (bytes : Bytes) (hw : writeClass t = .ok bytes) :
-    ∃ c : ClassLayout, bytes = c.encode ∧ c.Legal ∧ c.facts = some t := by
+    ∃ c : ClassLayout, bytes = c.encode ∧ c.Legal ∧ ∃ t', t.resolve = some t' ∧ c.facts = some t' := by
   obtain ⟨hok, hpool⟩ := hfrag
   obtain ⟨⟨body, pf⟩, hbody, hw⟩ := bind_eq_ok.mp hw
   obtain ⟨pb, hpb, hw⟩ := bind_eq_ok.mp hw
@@ -209,7 +213,7 @@ theorem writeClass_layout (t : ClassFacts) (hfrag : InWriterFragment t) (bytes :
   obtain ⟨s3, ils, rfl, him, hilt, hir⟩ := refList_spec (At := ClsAt) (fun p p' c i hg h => putClass_spec hg h)
     (fun p p' i c hle a => a.mono hle) s2.good h3
   obtain ⟨s4, fls, rfl, hfll, hfsd, hff⟩ := writeFields_spec t.fields s3.good hok.fields h5
-  obtain ⟨rfl, s5, mls, rfl, hmll, hmsd, hmf⟩ := writeMethods_spec t.methods s4.good hok.methods h7
+  obtain ⟨rfl, s5, mls, rfl, hmll, hmsd, ms', hmr, hmf⟩ := writeMethods_spec t.methods s4.good hok.methods h7
   obtain ⟨s6, als, rfl, hasd, haf⟩ := classAttrs_spec s5.good hok h8
   obtain ⟨hal, rfl⟩ := attrsBytes_inv h9
   have hgf : Good pf := s6.good
@@ -222,16 +226,16 @@ theorem writeClass_layout (t : ClassFacts) (hfrag : InWriterFragment t) (bytes :
   let c : ClassLayout :=
     { minor := t.minor, major := t.major, pool := rentries pf, access := t.access, thisCp := ti, name := t.name,
       superCp := si, super := t.super, interfaces := ils, fields := fls, methods := mls, attrs := als }
-  have hbase : FreshC c.base := ⟨trivial, trivial, rfl, rfl, rfl, rfl, rfl, rfl, rfl, rfl, rfl, rfl, trivial⟩
+  have hbase : FreshC (c.base, none, false) := ⟨rfl, rfl, rfl, rfl, rfl, rfl, rfl, rfl, rfl, rfl, rfl, rfl⟩
   have hacc := haf (c.base, none, false) hbase
-  have hfacts : c.facts = some t := by
+  have hfacts : c.facts = some { t with methods := ms' } := by
     simp only [ClassLayout.facts, hacc, c, hff, hmf]
-    have g5 := hok.module
-    have g6 := hok.record
     have g7 := hok.mask
     cases t
     simp_all [withAttrsOf, ClassLayout.base]
-  refine ⟨c, ?_, ?_, hfacts⟩
+  have hresolve : t.resolve = some { t with methods := ms' } := by
+    simp [ClassFacts.resolve, hmr, bind, Option.bind]
+  refine ⟨c, ?_, ?_, _, hresolve, hfacts⟩
   · -- the bytes
     simp only [ClassLayout.encode, c, poolBytes_eq hgf.1 hpb, encAttrs_eq, hfll, hmll, List.length_map, encRefs]
     simp only [List.append_assoc, List.append_cancel_left_eq]
@@ -259,8 +263,21 @@ theorem writeClass_layout (t : ClassFacts) (hfrag : InWriterFragment t) (bytes :
 /-- **the written file is read back**: C01's reader model reads the file `write` produced for a class description of
 the fragment back to exactly that description, and stops at its end -/
 theorem writeClass_read (t : ClassFacts) (hfrag : InWriterFragment t) (bytes : Bytes) (hw : writeClass t = .ok bytes)
-    (r : Bytes) : ∃ raw, ClassRead.read (bytes ++ r) = .ok (raw, r) ∧ raw.resolve = some t := by
-  obtain ⟨c, rfl, hleg, hfacts⟩ := writeClass_layout t hfrag bytes hw
-  exact read_encode c hleg t hfacts r
+    (r : Bytes) : ∃ raw t', ClassRead.read (bytes ++ r) = .ok (raw, r) ∧ t.resolve = some t' ∧ raw.resolve = some t' := by
+  obtain ⟨c, rfl, hleg, t', hres, hfacts⟩ := writeClass_layout t hfrag bytes hw
+  obtain ⟨raw, h1, h2⟩ := read_encode c hleg t' hfacts r
+  exact ⟨raw, t', h1, hres, h2⟩
+
+/-- a class description without method bodies is its own resolved form -/
+theorem resolve_no_code (t : ClassFacts) (h : ∀ m ∈ t.methods, m.code = none) : t.resolve = some t := by
+  have : ∀ ms : List MethodFacts, (∀ m ∈ ms, m.code = none) → mapM' MethodFacts.resolve ms = some ms := by
+    intro ms
+    induction ms with
+    | nil => intro _; rfl
+    | cons m ms ih =>
+      intro hm
+      have h0 : m.resolve = some m := by simp [MethodFacts.resolve, hm m (by simp)]
+      simp [mapM', h0, ih (fun x hx => hm x (by simp [hx])), bind, Option.bind]
+  simp [ClassFacts.resolve, this t.methods h, bind, Option.bind]
 
 end ClassWriteFull
